@@ -121,4 +121,12 @@ PROGRAM Main\nVAR m : Mix; END_VAR\nVAR_EXTERNAL g : INT; END_VAR\nm(x := g);\nE
         cycles: 1,
         expect: &[(0, "g", "INT#Int(111)")],
     },
+    Cell {
+        name: "case-insensitive-names",
+        text: "FUNCTION Foo : INT\nVAR_INPUT Val : INT; END_VAR\nfoo := Val + INT#7;\nEND_FUNCTION\n\
+FUNCTION_BLOCK Acc\nVAR_INPUT Incr : INT; END_VAR\nVAR_OUTPUT Tot : INT; END_VAR\ntot := TOT + incr;\nEND_FUNCTION_BLOCK\n\
+PROGRAM Main\nVAR r1 : INT; r2 : INT; r3 : INT; a : Acc; END_VAR\nr1 := Foo(val := INT#4);\nr2 := FOO(Val := INT#1);\na(INCR := INT#5);\nr3 := a.TOT;\nEND_PROGRAM\n",
+        cycles: 1,
+        expect: &[(0, "Main.r1", "INT#Int(11)"), (0, "Main.r2", "INT#Int(8)"), (0, "Main.r3", "INT#Int(5)")],
+    },
 ];
